@@ -28,7 +28,7 @@ RULE = ("all 2^11 section-flag combinations x every PCode member (exhaustive for
         "pairs on which both decoders were compared and agreed"
         ". Round-5 additions: the template's plain-data form must re-encode to the payload too; generated payloads are written into viewer object cache files (independent writer hv/vocache_fs.py) together with entries at the format's size limits (1, 9999, 10000 valid; 0 and 10001 dataless) and read back through RegionViewerObjectCache: every valid entry byte-for-byte, then through both decoders"
         ". Rounds 6-7: rotations with particular geometry (exact half turns, over-long vector parts); NameValue text with line-break-like characters"
-        ". Round 10: one-byte-counted collections of small fixed-size entries filled to exactly 255 entries (every 25th; shared deriver)")
+        ". Round 10: one-byte-counted collections of small fixed-size entries filled to exactly 255 entries (every 25th; shared deriver). Round 11: before every other good re-encode, an encode that is refused part-way through one of the length-prefixed sections (its last leaf made unwritable)")
 ASSUMPTIONS = [
     "well-formed = encodable by the declarative template with an object kind from the PCode enum; payloads whose kind byte "
     "is outside the enum are counted separately (the fast path deliberately builds the enum member)",
@@ -37,7 +37,7 @@ ASSUMPTIONS = [
     "a NameValue section that is flagged present is non-empty (an empty flagged section is not self-delimiting by "
     "design of the terminated wrapper)",
 ]
-MUST_REACH = {"namevalue_collections_repeating_their_first_entry": 50, "flag_pcode_pairs_covered": 2048, "compared": 3000, "reencoded_identical": 3000, "mutants_compared": 300,
+MUST_REACH = {"refused_encodes_before_good_ones": 200, "namevalue_collections_repeating_their_first_entry": 50, "flag_pcode_pairs_covered": 2048, "compared": 3000, "reencoded_identical": 3000, "mutants_compared": 300,
               "pcodes_covered": 4, "te_face_bitfields_checked": 100, "fast_results_scribbled": 100,
               "reencoded_identical_plain_data_form": 3000, "cache_files_read": 5, "cache_entries_at_size_limits": 5,
               "compared_from_cache_file": 50, "special_rotations": 300}
@@ -128,6 +128,12 @@ def compare(ctx, payload: bytes, origin, wit_extra, generated_value=None):
                           dict(wit, diffs=[(p, repr(a)[:80], repr(b)[:80]) for p, a, b in
                                            gen_spec.diff_paths(gen_spec.canon(generated_value), tcanon)[:6]]))
             return False
+        # Round 11: the serializer is a long-lived object; every other time a refused encode goes first - the decoded value with the
+        # last leaf of one of its length-prefixed sections replaced by something that cannot be written, so the refusal comes
+        # when part of the section is already written - and the good re-encode that follows must not know about it
+        _COUNT[0] += 1
+        if _COUNT[0] % 2 == 0:
+            _refused_encode_first(ctx, payload)
         try:
             back = bytes(SER.serialize(_BLOCK, tv))
         except Exception as e:
@@ -161,6 +167,72 @@ def compare(ctx, payload: bytes, origin, wit_extra, generated_value=None):
 
 
 _KEPT = []
+_COUNT = [0]
+_SECTIONS = ("TextureEntry", "ExtraParams", "TextureAnim", "PSBlock", "NameValue", "Text", "MediaURL")
+
+
+class _Unwritable:
+    def __repr__(self):
+        return "<unwritable>"
+
+
+def _spoil_last_leaf(v, depth=0):
+    """Replace the last leaf reachable inside v (dicts, lists, objects with attributes) by an unwritable object."""
+    if depth > 6:
+        return False
+    if isinstance(v, dict):
+        keys = list(v.keys())
+        for k in reversed(keys):
+            if isinstance(v[k], (dict, list)) or _is_record(v[k]):
+                if _spoil_last_leaf(v[k], depth + 1):
+                    return True
+            else:
+                v[k] = _Unwritable()
+                return True
+        return False
+    if isinstance(v, list):
+        for i in range(len(v) - 1, -1, -1):
+            if isinstance(v[i], (dict, list)) or _is_record(v[i]):
+                if _spoil_last_leaf(v[i], depth + 1):
+                    return True
+            else:
+                v[i] = _Unwritable()
+                return True
+        return False
+    if _is_record(v):
+        return _spoil_last_leaf(v.__dict__, depth + 1)
+    return False
+
+
+def _is_record(x):
+    import dataclasses
+    return dataclasses.is_dataclass(x) and not isinstance(x, type) and hasattr(x, "__dict__")
+
+
+def _refused_encode_first(ctx, payload):
+    import copy
+    try:
+        bad = SER.deserialize(_BLOCK, payload, pod=False)
+        present = [k for k in _SECTIONS if k in bad and bad[k] is not None and not isinstance(bad[k], (bytes, str, int, float))]
+        if not present:
+            ctx.count("refusals_not_attempted_no_section")
+            return
+        k = present[_COUNT[0] // 2 % len(present)]
+        sec = copy.deepcopy(bad[k])
+        if not _spoil_last_leaf(sec if not isinstance(sec, tuple) else list(sec)):
+            ctx.count("refusals_not_attempted_nothing_to_spoil")
+            return
+        bad[k] = sec
+    except Exception:
+        ctx.count("refusals_not_attempted_harness")
+        return
+    try:
+        SER.serialize(_BLOCK, bad)
+    except Exception:
+        ctx.count("refused_encodes_before_good_ones")
+        ctx.cover("sections_refused", k)
+    else:
+        ctx.count("spoiled_values_accepted")
 
 
 def cache_file_route(ctx, rng):
